@@ -393,3 +393,37 @@ def machine_check(ck, items, label, maxlen=4, maxtexts=40, variants=(('prune', {
     ck.count(evaluations=n, traces=n)
     ck.notes[f'machine_cases ({label})'] = n
     return n
+
+
+def observer_check(ck, items, label, maxlen=3, maxtexts=30, act='tag'):
+    """Model-check spec/PegMachineObs.tla (history counters per (position, rule): entries, body evaluations, action calls) on items x
+    texts under every memo schedule, with memoization on and off: ActionOncePerBody, NoMemoEvaluates, HitNeedsEvaluation,
+    KeywordBeforeAction (+ Refines, FramesBalanced, StepBound).  A self-test configuration whose invariant says "no call is ever
+    answered from the memo and no action ever runs" must be refuted on the same job file (the counters are not vacuous)."""
+    marked = with_marks([it['g'] for it in items])
+    jobs = Jobs()
+    for it, g in zip(items, marked):
+        texts = [t for t in it['texts'] if len(t) <= maxlen][:maxtexts]
+        for memo in (True, False):
+            if not memo and any(r.get('lrec') for r in g['rules']):
+                continue
+            cfg = make_cfg(chars_of(g, texts), **{k: v for k, v in (it.get('cfg') or {}).items()})
+            cfg.update({'act': act, 'actrule': '*', 'backend': 'model', 'maxmiss': 2, 'prune': True, 'memoize': memo})
+            jobs.add(g, cfg, texts, start=it.get('start', 's'))
+    d = tlc.scratch_dir('obs')
+    try:
+        path = os.path.join(d, 'cases.json')
+        jobs.dump(path)
+        r = tlc.run_tlc('PegMachineObs', cfg='PegMachineObs', env={'VERIF_CASES': path}, timeout=3000)
+        rs = tlc.run_tlc('PegMachineObs', cfg='PegMachineObsSelf', env={'VERIF_CASES': path}, timeout=3000)
+    finally:
+        shutil.rmtree(d, ignore_errors=True)
+    ck.add_tlc(r, f'PegMachineObs ({label})')
+    if rs.violated != 'SelfTestNeverHits':
+        raise tlc.MachineryError(f'PegMachineObs self-test: the invariant that must be refuted was not ({rs.violated}): vacuous counters')
+    if r.violated:
+        ck.violation({'kind': 'schedule', 'inputs': {'spec': 'PegMachineObs', 'universe': label},
+                      'expected': 'ActionOncePerBody, NoMemoEvaluates, HitNeedsEvaluation, KeywordBeforeAction under every memo schedule',
+                      'observed': r.violated, 'trace': [ln for ln in r.trace if not ln.startswith('"RES')][:80]}, key='obs' + label + str(r.violated))
+    ck.notes[f'observer_cases ({label})'] = jobs.ncases()
+    return r
